@@ -1,3 +1,7 @@
+; idx(a,b) = a + b: element addresses go through this function so that quantified clauses over
+; s[k] have an E-matching trigger independent of the arithmetic normal form of the index.
+(declare-fun idx (Int Int) Int)
+(assert (forall ((a Int) (b Int)) (! (= (idx a b) (+ a b)) :pattern ((idx a b)))))
 ; Wire-format specification functions (Int mode). Written from the property statements
 ; and the pinned layout, with LITERAL constants (no reference to format.TypeX).
 ; M: byte array of one object; e: index one past the value's last byte; lo: lowest readable index.
